@@ -194,7 +194,9 @@ func c19Exec(c Sx) (out Sx) {
 			case "stream":
 				// readers of every legal shape: with WriteTo, plain, data together with io.EOF, one byte at a time
 				var rd io.Reader = bytes.NewReader([]byte(str))
-				switch vk % 4 {
+				switch vk % 5 {
+				case 4: // a strings.Reader: its WriteTo goes through io.WriteString
+					rd = strings.NewReader(str)
 				case 1:
 					rd = struct{ io.Reader }{bytes.NewReader([]byte(str))}
 				case 2:
